@@ -12,14 +12,15 @@ from gaddlemaps.components import AtomGro, Residue
 PROPERTY = "C19"
 LEVEL = "exploration"
 RULE = ("pairs (residue of 1..6 atoms, residue or point) whose centre separation is built from a fractional "
-        "separation kept >= 1e-4 away from +-1/2 on every axis plus integer cell offsets in [-4,4] (inside and far "
+        "separation kept >= 2e-6 away from +-1/2 on every axis (a quarter of the cases within 1e-4 of it) plus integer cell offsets in [-4,4] (inside and far "
         "outside the box); orthorhombic boxes with edges 0.5..20 nm (cubic, rectangular, given as matrix; a quarter with "
         "whole-number vectors, handed over as float64, integer dtype, Fortran-ordered or read-only array) and "
         "triclinic boxes (lower-triangular, off-diagonal <= 0.4 x diagonal); lattice shifts in [-3,3]^3. "
         "Non-trivial = some box edge != 1 and the separation exceeds half a box edge on some axis. "
         "Distinct = sha1 of the case JSON.")
 ASSUMPTIONS = [
-    "separations within 1e-4 (fractional) of an exact half box are not generated (two images tie there)",
+    "separations within 2e-6 of the box edge (fractional) of an exact half box are not generated (two images tie "
+    "there; the statement excludes 1e-6 nm, boxes are >= 0.5 nm); a quarter of the cases sits 2e-6 .. 1e-4 from it",
     "for triclinic boxes only symmetry, lattice-shift invariance and agreement of the inverse-box flag are required "
     "(the statement's minimum-image equality is for orthorhombic boxes)",
 ]
@@ -56,6 +57,12 @@ def case_strategy(draw):
     if draw(st.booleans()):
         ax = int(rng.integers(0, 3))
         frac[ax] = rng.choice([-1, 1]) * rng.uniform(0.4, 0.5 - 1e-4)
+    near_half = draw(st.integers(0, 3)) == 0
+    if near_half:
+        # just outside the excluded tie zone (1e-6 nm from half a box edge): 2e-6 .. 1e-4 of the edge away from it
+        for ax in range(3):
+            if rng.random() < 0.6:
+                frac[ax] = rng.choice([-1, 1]) * (0.5 - 10.0 ** rng.uniform(np.log10(2e-6), -4))
     cells = rng.integers(-4, 5, 3) if draw(st.booleans()) else np.zeros(3, int)
     c1 = rng.uniform(-1, 1, 3) @ box + (rng.integers(-3, 4, 3) @ box if draw(st.booleans()) else 0)
     c2 = c1 + (frac + cells) @ box
@@ -71,7 +78,7 @@ def case_strategy(draw):
             "off1": off1.tolist(), "off2": off2.tolist(), "point": n2 == 0,
             "frac": frac.tolist(), "cells": cells.tolist(),
             "shift1": shift1.tolist(), "shift2": shift2.tolist(),
-            "box_repr": draw(st.sampled_from(["float", "float", "int", "F", "readonly"]))}
+            "box_repr": draw(st.sampled_from(["float", "float", "int", "F", "readonly"])), "near_half": near_half}
 
 
 def check(case):
@@ -146,7 +153,7 @@ def check(case):
     nt = bool(np.any(np.abs(edges - 1) > 1e-9)) and bool(np.any(fracsep > 0.5))
     return {"nontrivial": nt, "classes": ["box:" + case["box_kind"], "point" if case["point"] else "residue",
                                           "far" if np.any(np.array(case["cells"]) != 0) else "inside",
-                                          "box-repr:" + brepr]}
+                                          "box-repr:" + brepr, "near-half" if case.get("near_half") else "away-from-half"]}
 
 
 SUBCHECKS = [
